@@ -40,11 +40,86 @@ def states(tier, seed):
         if model == "tube" and tssf != 1.0:
             continue
         st.append(dict(part="exact", N=N, model=model, tssf=tssf, yf=yf, fam=fam))
+    # inside a two-surface AerostructPoint every surface's reported stresses and failure are those of the stress / failure components
+    # built with THAT surface's dictionary (materials, allowable, strength factor, failure form), fed with its own converged state
+    for sym, model, same, diff in itertools.product([True, False], ["tube", "wingbox"], [True, False], ["material", "yield", "exact", "tssf"]):
+        if diff == "tssf" and model == "tube":
+            continue
+        st.append(dict(part="aspoint", sym=sym, model=model, same=same, diff=diff, fam=fam))
     return st, 0
 
 
 def run_state(s):
     return globals()["part_" + s["part"]](s)
+
+
+def part_aspoint(s):
+    from openaerostruct.structures.failure_exact import FailureExact
+    from openaerostruct.structures.failure_ks import FailureKS
+    from openaerostruct.structures.vonmises_tube import VonMisesTube
+    from openaerostruct.structures.vonmises_wingbox import VonMisesWingbox
+
+    sym, fam, model = s["sym"], s["fam"], s["model"]
+    side = "left" if sym else "full"
+    ny = 3 if sym else 5
+    mesh1 = gen.make_mesh("twdi", 2, ny, side, fam, asym=not sym, span=10.0, chord=1.6)
+    mesh2 = gen.make_mesh("swept", 2, ny if s["same"] else (2 if sym else 3), side, fam, asym=not sym, span=6.0, chord=1.1, offset=[6.0, 0.0, 0.8])
+
+    def surf(name, mesh, k):
+        sf = builders.struct_surface(name, mesh, sym, model, with_viscous=True)
+        if k and s["diff"] == "material":
+            sf["E"], sf["G"] = sf["E"] * 2.9, sf["G"] * 2.6
+        if k and s["diff"] == "yield":
+            sf["yield"] = sf["yield"] * 0.37
+        if k and s["diff"] == "exact":
+            sf["exact_failure_constraint"] = True
+        if k and s["diff"] == "tssf":
+            sf["strength_factor_for_upper_skin"] = 1.4
+        return sf
+
+    # the surface that differs goes first and last in turn
+    viol, val, dig = [], 0, []
+    for order in ((0, 1), (1, 0)):
+        surfs = [surf("wing", mesh1, order[0]), surf("tail", mesh2, order[1])]
+        fl = dict(Mach_number=0.4, W0=2.0e3, v=90.0, rho=0.9, alpha=4.0, speed_of_sound=220.0, R=2.0e6, load_factor=1.0)
+        try:
+            p = builders.build_aerostruct(surfs, fl)
+            builders.tighten(p, nl="default", lin="default")
+            p.run_model()
+        except om.AnalysisError:
+            raise
+        except Exception as exc:  # noqa: BLE001
+            viol.append(dict(sig=dict(oracle="two_surface_aerostructural_sets_up", model=model), msg="two structural surfaces (%s, differing in %s) fail together: %s: %s" % (model, s["diff"], type(exc).__name__, str(exc)[:200]), measure=1.0))
+            val += 1
+            continue
+        for sf in surfs:
+            nm = sf["name"]
+            q = om.Problem(reports=False)
+            if model == "tube":
+                q.model.add_subsystem("v", VonMisesTube(surface=sf), promotes=["*"])
+                ins = {"radius": p[nm + ".radius"]}
+            else:
+                q.model.add_subsystem("v", VonMisesWingbox(surface=sf), promotes=["*"])
+                ins = {k: p[nm + "." + k] for k in ("Qz", "J", "A_enc", "spar_thickness", "htop", "hbottom", "hfront", "hrear")}
+            q.model.add_subsystem("f", (FailureExact if sf["exact_failure_constraint"] else FailureKS)(surface=sf), promotes=["*"])
+            q.setup()
+            q.set_val("nodes", p[nm + ".nodes"])
+            q.set_val("disp", p["AS_point_0.coupled.%s.disp" % nm])
+            for k, v in ins.items():
+                q.set_val(k, v)
+            q.run_model()
+            for o in ("vonmises", "failure"):
+                val += 1
+                got = np.asarray(p["AS_point_0.%s_perf.%s" % (nm, o)], dtype=float)
+                want = np.asarray(q[o], dtype=float)
+                if got.shape != want.shape:
+                    e = 1.0
+                else:
+                    e = np.abs(got - want).max() / max(np.abs(want).max(), 1e-300)
+                if not e <= 1e-9:
+                    viol.append(dict(sig=dict(oracle="group_reports_own_surface_stress", observable=o, model=model, diff=s["diff"]), msg="two-surface AerostructPoint (%s, surfaces differ in %s): %s_perf.%s differs by %.2e from the %s component built with this surface's own dictionary and fed with its own displacements" % (model, s["diff"], nm, o, e, o), measure=float(e)))
+            dig.append(np.asarray(p["AS_point_0.%s_perf.vonmises" % nm]))
+    return dict(viol=viol, nontrivial=True, digest=digest_arrays(*dig) if dig else "aspoint-fail", transitions=2, validated=val)
 
 
 def vm_problem(s, nodes):
